@@ -74,9 +74,16 @@ struct kt_less { auto operator()(kt const& a, kt const& b) const -> bool { retur
 struct kt_greater { auto operator()(kt const& a, kt const& b) const -> bool { return a.key > b.key; } };
 struct kt_low2 { auto operator()(kt const& a, kt const& b) const -> bool { return (a.key & 3) < (b.key & 3); } };
 struct kt_mod3 { auto operator()(kt const& a, kt const& b) const -> bool { return a.key % 3 < b.key % 3; } };
-struct kt_is_mult4 { auto operator()(kt const& x) const -> bool { return (x.key & 3) == 0; } };
 #define CMP_INT(c, ...) do { if ((c) == 0) { auto cmp = etl::less(); __VA_ARGS__; } else if ((c) == 1) { auto cmp = etl::greater(); __VA_ARGS__; } else if ((c) == 2) { auto cmp = low2_less{}; __VA_ARGS__; } else { auto cmp = mod3_less{}; __VA_ARGS__; } } while (0)
 #define CMP_KT(c, ...) do { if ((c) == 0) { auto cmp = kt_less{}; __VA_ARGS__; } else if ((c) == 1) { auto cmp = kt_greater{}; __VA_ARGS__; } else if ((c) == 2) { auto cmp = kt_low2{}; __VA_ARGS__; } else { auto cmp = kt_mod3{}; __VA_ARGS__; } } while (0)
+// tagged ints: key = x >> 4 (arithmetic shift, the full 28-bit range), tag = x & 15 (element identity, set by the harness). Cheaper for CBMC
+// than the 8-byte {key,tag} struct when two ranges and an output range are involved; the comparators look at the key only.
+struct hi_less { auto operator()(int const& a, int const& b) const -> bool { return (a >> 4) < (b >> 4); } };
+struct hi_greater { auto operator()(int const& a, int const& b) const -> bool { return (a >> 4) > (b >> 4); } };
+struct hi_low2 { auto operator()(int const& a, int const& b) const -> bool { return ((a >> 4) & 3) < ((b >> 4) & 3); } };
+struct hi_mod3 { auto operator()(int const& a, int const& b) const -> bool { return (a >> 4) % 3 < (b >> 4) % 3; } };
+struct hi_is_mult4 { auto operator()(int const& x) const -> bool { return ((x >> 4) & 3) == 0; } };
+#define CMP_HI(c, ...) do { if ((c) == 0) { auto cmp = hi_less{}; __VA_ARGS__; } else if ((c) == 1) { auto cmp = hi_greater{}; __VA_ARGS__; } else if ((c) == 2) { auto cmp = hi_low2{}; __VA_ARGS__; } else { auto cmp = hi_mod3{}; __VA_ARGS__; } } while (0)
 #define PRED1(p, ...) do { if ((p) == 0) { auto pred = is_mult4{}; __VA_ARGS__; } else if ((p) == 1) { auto pred = is_neg{}; __VA_ARGS__; } else { auto pred = is_mult3{}; __VA_ARGS__; } } while (0)
 #define PEQ(p, ...) do { if ((p) == 0) { auto pred = etl::equal_to(); __VA_ARGS__; } else if ((p) == 1) { auto pred = low2_eq{}; __VA_ARGS__; } else { auto pred = mod3_eq{}; __VA_ARGS__; } } while (0)
 
@@ -92,7 +99,7 @@ VF_E int* a_shift_right_bidi(int* f, int* l, diff_t n) { return etl::shift_right
 // ---- partition family
 VF_E int* a_partition(int* f, int* l, int p) { int* r = nullptr; PRED1(p, r = etl::partition(f, l, pred)); return r; }
 VF_E int* a_partition_fwd(int* f, int* l, int p) { int* r = nullptr; PRED1(p, r = etl::partition(fwd_it{f}, fwd_it{l}, pred).p); return r; }
-VF_E kt* a_stable_partition(kt* f, kt* l) { return etl::stable_partition(f, l, kt_is_mult4{}); }
+VF_E int* a_stable_partition(int* f, int* l) { return etl::stable_partition(f, l, hi_is_mult4{}); }
 VF_E void a_partition_copy(int const* f, int const* l, int* dt, int* df, int** rt, int** rf)
 {
     auto r = etl::partition_copy(f, l, dt, df, is_mult4{});
@@ -103,7 +110,6 @@ VF_E void a_partition_copy(int const* f, int const* l, int* dt, int* df, int** r
 // ---- sorting
 VF_E void a_sort(int* f, int* l, int c) { if (c == 0) { etl::sort(f, l); } else { CMP_INT(c, etl::sort(f, l, cmp)); } }
 VF_E void a_gnome_sort(int* f, int* l, int c) { if (c == 0) { etl::gnome_sort(f, l); } else { CMP_INT(c, etl::gnome_sort(f, l, cmp)); } }
-VF_E void a_gnome_sort_ra(int* f, int* l, int c) { CMP_INT(c, etl::gnome_sort(ra_it{f, 0}, ra_it{f, l - f}, cmp)); }
 VF_E void a_gnome_sort_bidi(int* f, int* l, int c) { CMP_INT(c, etl::gnome_sort(bidi_it{f}, bidi_it{l}, cmp)); }
 VF_E void a_bubble_sort(int* f, int* l, int c) { if (c == 0) { etl::bubble_sort(f, l); } else { CMP_INT(c, etl::bubble_sort(f, l, cmp)); } }
 VF_E void a_exchange_sort(int* f, int* l, int c) { if (c == 0) { etl::exchange_sort(f, l); } else { CMP_INT(c, etl::exchange_sort(f, l, cmp)); } }
@@ -111,7 +117,7 @@ VF_E void a_partial_sort(int* f, int* m, int* l, int c) { if (c == 0) { etl::par
 VF_E void a_nth_element(int* f, int* m, int* l, int c) { if (c == 0) { etl::nth_element(f, m, l); } else { CMP_INT(c, etl::nth_element(f, m, l, cmp)); } }
 VF_E void a_stable_sort(kt* f, kt* l, int c) { CMP_KT(c, etl::stable_sort(f, l, cmp)); }
 VF_E void a_insertion_sort(kt* f, kt* l, int c) { CMP_KT(c, etl::insertion_sort(f, l, cmp)); }
-VF_E void a_merge_sort(kt* f, kt* l, int c) { CMP_KT(c, etl::merge_sort(f, l, cmp)); }
+VF_E void a_merge_sort(int* f, int* l, int c) { CMP_HI(c, etl::merge_sort(f, l, cmp)); }
 VF_E void a_stable_sort_int(int* f, int* l) { etl::stable_sort(f, l); }
 VF_E void a_insertion_sort_int(int* f, int* l) { etl::insertion_sort(f, l); }
 VF_E void a_merge_sort_int(int* f, int* l) { etl::merge_sort(f, l); }
@@ -133,17 +139,16 @@ VF_E bool a_includes(int const* f1, int const* l1, int const* f2, int const* l2,
     return r;
 }
 
-// ---- merging and set operations ({key,tag} elements: which range an output element comes from is observable)
-VF_E kt* a_merge(kt const* f1, kt const* l1, kt const* f2, kt const* l2, kt* d, int c) { kt* r = nullptr; CMP_KT(c, r = etl::merge(f1, l1, f2, l2, d, cmp)); return r; }
+// ---- merging and set operations (tagged ints: which range an output element comes from is observable)
+VF_E int* a_merge(int const* f1, int const* l1, int const* f2, int const* l2, int* d, int c) { int* r = nullptr; CMP_HI(c, r = etl::merge(f1, l1, f2, l2, d, cmp)); return r; }
 VF_E int* a_merge_int(int const* f1, int const* l1, int const* f2, int const* l2, int* d) { return etl::merge(f1, l1, f2, l2, d); }
 VF_E int* a_merge_fwd(int* f1, int* l1, int* f2, int* l2, int* d) { return etl::merge(fwd_it{f1}, fwd_it{l1}, fwd_it{f2}, fwd_it{l2}, fwd_it{d}).p; }
-VF_E diff_t a_merge_ra(int* a, diff_t na, int* b, diff_t nb, int* d) { return etl::merge(ra_it{a, 0}, ra_it{a, na}, ra_it{b, 0}, ra_it{b, nb}, ra_it{d, 0}).i; }
-VF_E void a_inplace_merge(kt* f, kt* m, kt* l, int c) { CMP_KT(c, etl::inplace_merge(f, m, l, cmp)); }
+VF_E void a_inplace_merge(int* f, int* m, int* l, int c) { CMP_HI(c, etl::inplace_merge(f, m, l, cmp)); }
 VF_E void a_inplace_merge_int(int* f, int* m, int* l) { etl::inplace_merge(f, m, l); }
-VF_E kt* a_set_union(kt const* f1, kt const* l1, kt const* f2, kt const* l2, kt* d, int c) { kt* r = nullptr; CMP_KT(c, r = etl::set_union(f1, l1, f2, l2, d, cmp)); return r; }
-VF_E kt* a_set_intersection(kt const* f1, kt const* l1, kt const* f2, kt const* l2, kt* d, int c) { kt* r = nullptr; CMP_KT(c, r = etl::set_intersection(f1, l1, f2, l2, d, cmp)); return r; }
-VF_E kt* a_set_difference(kt const* f1, kt const* l1, kt const* f2, kt const* l2, kt* d, int c) { kt* r = nullptr; CMP_KT(c, r = etl::set_difference(f1, l1, f2, l2, d, cmp)); return r; }
-VF_E kt* a_set_symmetric_difference(kt const* f1, kt const* l1, kt const* f2, kt const* l2, kt* d, int c) { kt* r = nullptr; CMP_KT(c, r = etl::set_symmetric_difference(f1, l1, f2, l2, d, cmp)); return r; }
+VF_E int* a_set_union(int const* f1, int const* l1, int const* f2, int const* l2, int* d, int c) { int* r = nullptr; CMP_HI(c, r = etl::set_union(f1, l1, f2, l2, d, cmp)); return r; }
+VF_E int* a_set_intersection(int const* f1, int const* l1, int const* f2, int const* l2, int* d, int c) { int* r = nullptr; CMP_HI(c, r = etl::set_intersection(f1, l1, f2, l2, d, cmp)); return r; }
+VF_E int* a_set_difference(int const* f1, int const* l1, int const* f2, int const* l2, int* d, int c) { int* r = nullptr; CMP_HI(c, r = etl::set_difference(f1, l1, f2, l2, d, cmp)); return r; }
+VF_E int* a_set_symmetric_difference(int const* f1, int const* l1, int const* f2, int const* l2, int* d, int c) { int* r = nullptr; CMP_HI(c, r = etl::set_symmetric_difference(f1, l1, f2, l2, d, cmp)); return r; }
 VF_E int* a_set_ops_int(int which, int const* f1, int const* l1, int const* f2, int const* l2, int* d)
 {
     if (which == 0) { return etl::set_union(f1, l1, f2, l2, d); }
